@@ -429,6 +429,9 @@ def raw_scalars(path, cls_kind, loc, amap):
                         out[attr] = {"json": "<unreadable>"}
                 else:
                     out[attr] = {"json": None}
+            md = out["metadata"]["json"]
+            if isinstance(md, dict) and isinstance(md.get("Coordinate Reference System"), dict):
+                out["coordinate_reference_system"] = {"json": md["Coordinate Reference System"].get("Current")}
             for key, attr in amap.items():
                 if key in node.attrs:
                     v = node.attrs[key]
